@@ -24,6 +24,8 @@ def match(pat, val):
         return True
     if pat.startswith('!'):
         return val != pat[1:]
+    if '|' in pat:
+        return val in pat.split('|')
     return pat == val
 
 def compare(script_path, impl_path, model_path, max_report=50):
